@@ -509,7 +509,7 @@ func main() {
 	}
 	// the phase stream (phases.go) runs in the parent while the workers run: its texts have no loop that
 	// iterates, so it needs no step budget (the budget hook is process-global and stays off here)
-	nBasePh := 10
+	nBasePh := 4
 	if a.Tier == "thorough" {
 		nBasePh = 400
 	}
